@@ -35,122 +35,8 @@ SPELLINGS = ["plain", "dot", "slash"]
 PARTS = ["control", "data"]
 
 
-# ------------------------------------------------------------------ observing the real code
-
-def classify(e):
-    from debian.debfile import DebError
-    if isinstance(e, DebError):
-        return "DebError"
-    return "EXC:" + type(e).__name__
-
-
-_counter = [0]
-
-
-def open_deb(blob, how, work):
-    """-> (DebFile or None, 'ok' | 'DebError' | 'EXC:<type>', path to delete or None)"""
-    from debian.debfile import DebFile
-    path = None
-    try:
-        if how == "filename":
-            _counter[0] += 1
-            path = os.path.join(work, "p%d-%d.deb" % (os.getpid(), _counter[0]))
-            with open(path, "wb") as f:
-                f.write(blob)
-            return DebFile(filename=path), "ok", path
-        return DebFile(fileobj=io.BytesIO(blob)), "ok", None
-    except Exception as e:      # observation about the code under test
-        return None, classify(e), path
-
-
-def drop(path):
-    if path:
-        try:
-            os.unlink(path)
-        except OSError:
-            pass
-
-
-def obs_has(part, path):
-    """-> (err, found): has_file and `in` must agree"""
-    try:
-        a = part.has_file(path)
-    except Exception as e:
-        return classify(e), None
-    try:
-        b = path in part
-    except Exception as e:
-        return "EXC:in-raises-" + type(e).__name__, None
-    if bool(a) != bool(b):
-        return "EXC:has_file-and-in-disagree", None
-    return "", bool(a)
-
-
-def obs_get(part, path, variant=0):
-    """-> (err, data): data is None for an absent file (KeyError); err 'DebError' for DebError"""
-    try:
-        if variant == 1:
-            f = part.get_file(path)
-            data = f.read()
-            f.close()
-        elif variant == 2:
-            data = part[path]
-        else:
-            data = part.get_content(path)
-    except KeyError:
-        return "", None
-    except Exception as e:
-        return classify(e), None
-    if not isinstance(data, bytes):
-        return "EXC:returned-" + type(data).__name__, None
-    return "", data
-
-
-def norm_md5(d):
-    """md5sums() result with keys/values as text (the key type -- bytes without encoding -- is diagnostic)"""
-    out = {}
-    typed_ok = True
-    for k, v in d.items():
-        if isinstance(k, bytes):
-            k = k.decode("utf-8", "surrogateescape")
-        if isinstance(v, bytes):
-            v = v.decode("ascii", "replace")
-            typed_ok = False
-        out[k] = v
-    return out, typed_ok
-
-
-def obs_md5(ctl, encoding=None):
-    try:
-        d = ctl.md5sums(encoding=encoding) if encoding else ctl.md5sums()
-    except Exception as e:
-        return classify(e), None
-    if not isinstance(d, dict):
-        return "EXC:returned-" + type(d).__name__, None
-    m, typed = norm_md5(d)
-    if encoding and not all(isinstance(k, str) for k in d):
-        typed = False
-    if not encoding and not all(isinstance(k, bytes) for k in d):
-        typed = False
-    return "", (m, typed)
-
-
-def obs_scripts(ctl):
-    try:
-        d = ctl.scripts()
-    except Exception as e:
-        return classify(e), None
-    if not isinstance(d, dict):
-        return "EXC:returned-" + type(d).__name__, None
-    return "", dict(d)
-
-
-def obs_ctl(ctl):
-    try:
-        d = ctl.debcontrol()
-        return "", dict((k, d[k]) for k in d)
-    except Exception as e:
-        return classify(e), None
+from c07_obs import (classify, open_deb, drop, obs_has, obs_get, obs_md5, obs_scripts, obs_ctl,  # noqa: E402
+                     mutate_result)
 
 
 # ------------------------------------------------------------------ spec -> code
@@ -160,53 +46,96 @@ def fmap(x):
     return x if isinstance(x, dict) else {}
 
 
-def check_content(deb, probe, conc, rng, level, drift=None):
-    """ask the real object every entry of the table TLC printed for this content; None or message"""
-    qnames = sorted(probe["has"]["data"]["plain"])
-    # -- debcontrol / scripts / md5sums
-    who = deb if rng.random() < 0.5 else deb.control
-    err, fields = obs_ctl(who)
-    exp_ctl = conc.blob.get(probe["ctl"])
-    if exp_ctl != B.render_control(conc.fields):
+def expected_dicts(probe, conc):
+    """concrete images of the scripts / md5sums / debcontrol answers TLC printed"""
+    if conc.blob.get(probe["ctl"]) != B.render_control(conc.fields):
         raise core.MachineryError("PROBE names control blob %r which is not the control file" % probe["ctl"])
-    if err or fields != dict(conc.fields):
-        return "debcontrol() = %r, packed fields %r" % (err or fields, dict(conc.fields))
-    err, sc = obs_scripts(who)
-    exp_sc = {n: conc.blob[b] for n, b in fmap(probe["scripts"]).items()}
-    if err or sc != exp_sc:
-        return "scripts() = %r, packed scripts %r" % (err or sc, exp_sc)
-    exp_md5 = {conc.names[n]: conc.sum[s] for n, s in fmap(probe["md5"]).items()}
-    for enc in (None, "utf-8"):
-        err, r = obs_md5(who, enc)
-        if err or r[0] != exp_md5:
-            return "md5sums(%s) = %r, packed list %r" % ("" if not enc else "encoding='utf-8'", err or r[0], exp_md5)
-        if not r[1] and drift is not None:
+    return {"debcontrol": dict(conc.fields),
+            "scripts": {n: conc.blob[b] for n, b in fmap(probe["scripts"]).items()},
+            "md5sums": {conc.names[n]: conc.sum[s] for n, s in fmap(probe["md5"]).items()}}
+
+
+def ask_dict(who, op, enc, exp, keep, drift=None):
+    """one scripts() / md5sums() / debcontrol() call compared with the packed value; None or message"""
+    if op == "debcontrol":
+        err, got = obs_ctl(who, keep)
+    elif op == "scripts":
+        err, got = obs_scripts(who, keep)
+    else:
+        err, r = obs_md5(who, enc, keep)
+        got = r[0] if r else None
+        if r and not r[1] and drift is not None:
             drift("md5sums(%r): key/value types differ from the documented ones" % enc)
-    # -- membership and content for the three spellings
+    if err or got != exp[op]:
+        return "%s(%s) = %r, packed %r" % (op, "encoding=%r" % enc if enc else "", err or got, exp[op])
+    return None
+
+
+def check_content(deb, probe, conc, rng, level, drift=None):
+    """ask the real object every entry of the table TLC printed for this content -- in shuffled
+    order, control and data part and the three spellings interleaved, every query repeated later
+    through another access path (get_content / get_file().read() / [] / chunked reads with other
+    queries in between / two file objects at once), and scripts() / md5sums() / debcontrol() twice
+    with the returned dictionary mutated in between (DebFileCache.tla: HistExact says neither the
+    order nor repetition nor the mutation may change an answer).  None or message"""
+    qnames = sorted(probe["has"]["data"]["plain"])
+    exp = expected_dicts(probe, conc)
+    full = level == "full"
+    steps = []
     for p in PARTS:
-        part = deb.control if p == "control" else deb.data
         for n in qnames:
             sps = SPELLINGS
-            if level != "full" and rng.random() < 0.7:
+            if not full and rng.random() < 0.7:
                 sps = [rng.choice(SPELLINGS)]
             for sp in sps:
-                path = B.SPELL[sp] + conc.names[n]
-                eh = probe["has"][p][sp][n]
-                eg = probe["get"][p][sp][n]
-                err, found = obs_has(part, path)
-                if err or found != eh:
-                    return "%s.has_file(%r) / in = %s, specification says %s" % (p, path, err or found, eh)
-                err, data = obs_get(part, path, rng.randrange(3) if level == "full" else 0)
-                if err == "DebError" and eg == 0:
-                    # absent file reported with the package-format error instead of KeyError: accepted
-                    if drift is not None:
-                        drift("get_content of an absent file raises DebError (KeyError expected)")
-                    err, data = "", None
-                if eg == 0:
-                    if err or data is not None:
-                        return "%s.get_content(%r) = %r for a file that was not packed" % (p, path, err or data[:60])
-                elif err or data != conc.blob[eg]:
-                    return "%s.get_content(%r) = %r, packed %r" % (p, path, err or (None if data is None else data[:80]), conc.blob[eg][:80])
+                steps.append(("q", p, sp, n))
+    steps += [s for s in steps if full or rng.random() < 0.3]        # everything (again) later
+    rng.shuffle(steps)
+    for op, enc in (("debcontrol", None), ("scripts", None), ("md5sums", None), ("md5sums", "utf-8")):
+        at = sorted(rng.randint(0, len(steps)) for _ in range(3))
+        for k, st in enumerate([("d", op, enc), ("mutate",), ("d", op, enc)]):
+            steps.insert(at[k] + k, st)
+    keep = []
+
+    def disturb():
+        # other queries on both parts while a file object is half read
+        try:
+            deb.data.has_file("/control")
+            deb.control.get_content("control")
+        except Exception:
+            pass
+    for st in steps:
+        if st[0] == "mutate":
+            if keep:
+                mutate_result(keep[0])
+            continue
+        if st[0] == "d":
+            who = deb if rng.random() < 0.5 else deb.control
+            msg = ask_dict(who, st[1], st[2], exp, keep, drift)
+            if msg:
+                return msg
+            continue
+        _, p, sp, n = st
+        part = deb.control if p == "control" else deb.data
+        path = B.SPELL[sp] + conc.names[n]
+        eh = probe["has"][p][sp][n]
+        eg = probe["get"][p][sp][n]
+        err, found = obs_has(part, path)
+        if err or found != eh:
+            return "%s.has_file(%r) / in = %s, specification says %s" % (p, path, err or found, eh)
+        variant = rng.randrange(5) if full else rng.randrange(2)
+        err, data = obs_get(part, path, variant, disturb, rng)
+        if err == "DebError" and eg == 0:
+            # absent file reported with the package-format error instead of KeyError: accepted
+            if drift is not None:
+                drift("get_content of an absent file raises DebError (KeyError expected)")
+            err, data = "", None
+        if eg == 0:
+            if err or data is not None:
+                return "%s.get_content(%r) = %r for a file that was not packed" % (p, path, err or data[:60])
+        elif err or data != conc.blob[eg]:
+            return "%s.get_content(%r) [access path %d] = %r, packed %r" % (
+                p, path, variant, err or (None if data is None else data[:80]), conc.blob[eg][:80])
     return None
 
 
@@ -372,12 +301,31 @@ def record_trace(rng, work, given=None):
                     n = rng.choice(B.CTRL_NAMES)
                 else:
                     n = "absent"
-                calls.append([rng.choice(["has", "get"]), p, rng.choice(SPELLINGS), n, rng.randrange(3)])
+                calls.append([rng.choice(["has", "get"]), p, rng.choice(SPELLINGS), n, rng.randrange(5)])
+            # most queries are asked a second time later, through another access path; shuffled
+            calls += [c[:4] + [rng.randrange(5)] for c in calls if rng.random() < 0.6]
+            rng.shuffle(calls)
+            # scripts() / md5sums() / debcontrol(): twice, the returned dictionary mutated in between
             for op in ("scripts", "md5sums", "debcontrol"):
                 if rng.random() < 0.7:
-                    calls.insert(rng.randint(0, len(calls)), [op, rng.choice([None, "utf-8"])])
+                    enc = rng.choice([None, "utf-8"])
+                    at = sorted(rng.randint(0, len(calls)) for _ in range(3))
+                    for k, cl in enumerate([[op, enc], ["mutate"], [op, rng.choice([enc, enc, None])]]):
+                        calls.insert(at[k] + k, cl)
+        keep = []
+
+        def disturb():
+            try:
+                deb.data.has_file("/control")
+                deb.control.get_content("control")
+            except Exception:
+                pass
         for cl in (calls or []) if st == "ok" else []:
             op = cl[0]
+            if op == "mutate":          # not an event: the caller's own business
+                if keep:
+                    mutate_result(keep[0])
+                continue
             if op in ("has", "get"):
                 _, p, sp, n, variant = cl
                 part = deb.control if p == "control" else deb.data
@@ -387,7 +335,7 @@ def record_trace(rng, work, given=None):
                     err, found = obs_has(part, path)
                     events.append({"op": "has", "p": p, "sp": sp, "n": mn, "err": err, "found": bool(found)})
                 else:
-                    err, data = obs_get(part, path, variant)
+                    err, data = obs_get(part, path, variant, disturb, random.Random(len(events)))
                     if err == "DebError":
                         herr, _ = obs_has(part, path)
                         if herr == "":          # the part opens: DebError here reports the absent file
@@ -395,17 +343,17 @@ def record_trace(rng, work, given=None):
                     events.append({"op": "get", "p": p, "sp": sp, "n": mn, "err": err, "found": data is not None,
                                    "blob": 0 if data is None else table.get(data, 9999)})
             elif op == "scripts":
-                err, sc = obs_scripts(deb)
+                err, sc = obs_scripts(deb, keep)
                 events.append({"op": "scripts", "err": err,
                                "map": {k: table.get(v, 9999) for k, v in (sc or {}).items()} or []})
             elif op == "md5sums":
-                err, r = obs_md5(deb, cl[1])
+                err, r = obs_md5(deb, cl[1], keep)
                 mp = {}
                 for i, (k, v) in enumerate(sorted((r[0] if r else {}).items())):
                     mp[rev.get(k, "unknown%d" % i)] = sums.get(v, 0)
                 events.append({"op": "md5sums", "err": err, "map": mp or []})
             else:
-                err, fields = obs_ctl(deb)
+                err, fields = obs_ctl(deb, keep)
                 ctl_id = pkg["c"]["control"]
                 events.append({"op": "debcontrol", "err": err,
                                "blob": ctl_id if (not err and fields == dict(conc.fields)) else (0 if err else 9999)})
